@@ -114,7 +114,7 @@ def runX (ws : List Nat) : String :=
       match parseEntries m rest2 with
       | none => "bad-op"
       | some (entries, _) =>
-        let prem := s!"evenOffs={b01 (evenOffs ops)} stopsOnOps={b01 (stopsOnOps ops entries)} startsPos={b01 (startsPos ops entries)}"
+        let prem := s!"evenOffs={b01 (evenOffs ops)} stopsOnOps={b01 (stopsOnOps ops entries)} startsPos={b01 (startsPos ops entries)} endsFresh={b01 (endsFresh ops entries)}"
         match addSetupExcept ops entries with
         | .error e => s!"err {e.toString}|{prem}"
         | .ok xs =>
